@@ -38,13 +38,13 @@ def compile_ir(src, tree=REPO, defs=(), ubsan=False):
     """returns (path_to_ll, content_hash). src is relative to /verif/harness."""
     src = os.path.join(VERIF, 'harness', src)
     h = _pp_hash(src, tree, defs)
-    tag = os.path.basename(src).replace('.cpp', '') + ('-ub' if ubsan else '') + '-' + h
+    tag = os.path.basename(src).replace('.cpp', '') + ('-ub' if ubsan else '') + '-v2-' + h
     d = os.path.join(BUILD, 'ir')
     os.makedirs(d, exist_ok=True)
     out = os.path.join(d, tag + '.ll')
     if not os.path.exists(out):
         tmp = out + '.%d.tmp' % os.getpid()
-        _run([CLANG] + IRFLAGS + (UBFLAGS if ubsan else []) + incs(tree) + list(defs) + [src, '-o', tmp])
+        _run([CLANG] + IRFLAGS + ['-fmacro-prefix-map=%s/=' % tree] + (UBFLAGS if ubsan else []) + incs(tree) + list(defs) + [src, '-o', tmp])
         os.replace(tmp, out)
         _gc(d, os.path.basename(src).replace('.cpp', '') + ('-ub' if ubsan else '') + '-', keep=4)
     return out, h
